@@ -73,6 +73,17 @@ def run(tier):
     fx_global[0] = fx
     ck.configs.append("A: cargo +nightly check --lib --features c-api")
     gcf = [f for f in fx.fns.values() if f.file.endswith(GC)]
+    # the two parallel vectors of Space are identified by their element types, not by their names
+    sp_adt = fx.adts.get("gc::Space")
+    BITMAPS = CHUNKS = None
+    if sp_adt is not None:
+        for fd in sp_adt["variants"][0]["fields"]:
+            ty = fx.tys(fd["ty"])
+            if "ChunkBitmask" in ty and ty.startswith("std::vec::Vec<"):
+                BITMAPS = fd["name"]
+            if ty.startswith("std::vec::Vec<std::vec::Vec<gc::GcBox<"):
+                CHUNKS = fd["name"]
+    ck.anchor(BITMAPS is not None and CHUNKS is not None, "Space fields Vec<ChunkBitmask> (%s) and Vec<Vec<GcBox>> (%s)" % (BITMAPS, CHUNKS))
     ck.anchor(len(gcf) > 40, "functions of src/gc.rs (%d)" % len(gcf))
 
     # ---------------- O1
@@ -249,7 +260,7 @@ def run(tier):
         for bi, t in f.calls():
             if t[1].get("d", "").endswith("Vec::<T, A>::push") and t[2] and t[2][0][0] in ("c", "m"):
                 fl = E.field_of_ref(f, t[2][0][1][0])
-                if fl and fl[2] == "marked_chunks":
+                if fl and fl[2] == BITMAPS:
                     ck.finding("O3.chunk-ptr-add", "O3.grow-in-mark/" + f.path, F.short_span(t[6]), "mark() grows marked_chunks while a raw pointer into it is live")
 
     # ---------------- O4
@@ -341,9 +352,9 @@ def run(tier):
         for bi, t in f.calls():
             if t[1].get("d", "").endswith("Vec::<T, A>::push") and t[2] and t[2][0][0] in ("c", "m"):
                 fl = E.field_of_ref(f, t[2][0][1][0])
-                if fl and fl[2] == "chunks":
+                if fl and fl[2] == CHUNKS:
                     pc = t
-                if fl and fl[2] == "marked_chunks":
+                if fl and fl[2] == BITMAPS:
                     pm = t
         if pc or pm:
             ok = bool(pc) and bool(pm)
